@@ -18,7 +18,7 @@ import (
 )
 
 func init() {
-	pbt.Describe("cases = (major, base version or none, instant, zone, revision, second instant+revision). Bases come from the C04 grammar restricted to valid versions: shortened forms, prereleases incl. -0, hyphenated and date-like identifiers (a pseudo-version used as base), +incompatible and other build metadata, patch numbers of 1-40 digits incl. all nines. Instants are uniform over edge values and the whole range 0001-01-01..9999-12-31 UTC with sub-second parts and zone offsets in [-18h,+18h]; revisions [0-9A-Za-z]{1,40}. Oracle: round trip of base/time/rev, validity under the independent semver model, base < pv < next release (by the model and by semver.Compare), no-base pv < vX.0.0, time monotonicity for any two revisions. Non-trivial: base present with a prerelease, or a patch of >=2 digits, or all nines. Distinct by JSON rendering.",
+	pbt.Describe("cases = (major, base version or none, instant, zone, revision, second instant+revision). Bases come from the C04 grammar restricted to valid versions: shortened forms, prereleases incl. -0, hyphenated and date-like identifiers (a pseudo-version used as base), +incompatible and other build metadata, patch numbers of 1-40 digits incl. all nines. Instants are uniform over edge values and the whole range 0001-01-01..9999-12-31 UTC with sub-second parts and zone offsets in [-18h,+18h]; revisions [0-9A-Za-z]{1,40}. Oracle: round trip of base/time/rev, validity under the independent semver model, base < pv < next release (by the model and by semver.Compare), no-base pv < vX.0.0, time monotonicity for any two revisions. Non-trivial: base present with a prerelease, or a patch of >=2 digits, or all nines. Distinct by JSON rendering. A third of the cases first take a sibling version apart (build suffix toggled, other revision, or the same version) and then check the answers for the version proper.",
 		"semverref model (see C04)", "the UTC instant lies in years 0001-9999 (the timestamp format has four year digits)")
 }
 
@@ -34,6 +34,7 @@ type pvCase struct {
 	Unix2    int64
 	Rev2     string
 	ZoneOff2 int
+	First    int `json:",omitempty"` // which sibling version is taken apart before this one: 0 none; 1 the same with the build suffix toggled; 2 the same with the other revision; 3 the same version
 }
 
 const (
@@ -116,6 +117,9 @@ func genCase(t *rapid.T) pvCase {
 	}
 	c.Rev2 = genRev(t, "rev2")
 	c.ZoneOff2 = rapid.IntRange(-18*3600, 18*3600).Draw(t, "zone2")
+	if gen.Chance(t, 35, "first") {
+		c.First = 1 + gen.Uniform(t, 3, "firstkind")
+	}
 	return c
 }
 
@@ -178,6 +182,23 @@ func check(c pvCase) pbt.Result {
 	if !semver.IsValid(pv) || !module.IsPseudoVersion(pv) {
 		r.Fail = pbt.Failf("recognised", "PseudoVersion(...)=%q: semver.IsValid=%v IsPseudoVersion=%v", pv, semver.IsValid(pv), module.IsPseudoVersion(pv))
 		return r
+	}
+	// nothing learnt while taking a sibling version apart may show in the answers for this one
+	if c.First >= 1 && c.First <= 3 {
+		sib := pv
+		switch {
+		case c.First == 1 && c.Base != "" && bp.Build != "":
+			sib = module.PseudoVersion(c.Major, strings.TrimSuffix(c.Base, bp.Build), t1, c.Rev)
+		case c.First == 1 && c.Base != "":
+			sib = module.PseudoVersion(c.Major, c.Base+"+incompatible", t1, c.Rev)
+		case c.First == 2:
+			sib = module.PseudoVersion(c.Major, c.Base, t1, c.Rev2)
+		}
+		module.PseudoVersionBase(sib)
+		module.PseudoVersionTime(sib)
+		module.PseudoVersionRev(sib)
+		module.IsPseudoVersion(sib)
+		r.Classes = append(r.Classes, fmt.Sprintf("sibling taken apart first (kind %d)", c.First))
 	}
 	wantBase := ""
 	if c.Base != "" {
